@@ -7,6 +7,8 @@ import (
 	. "github.com/vektah/gqlparser/v2/validator"
 )
 
+import "github.com/vektah/gqlparser/v2/verifhook"
+
 const maxListsDepth = 3
 
 var MaxIntrospectionDepth = Rule{
@@ -30,6 +32,7 @@ var MaxIntrospectionDepth = Rule{
 }
 
 func checkDepthSelectionSet(selectionSet ast.SelectionSet, visitedFragments map[string]bool, depth int) bool {
+	verifhook.Step(verifhook.SiteIntrospectionDepth)
 	for _, child := range selectionSet {
 		if field, ok := child.(*ast.Field); ok {
 			if checkDepthField(field, visitedFragments, depth) {
